@@ -671,3 +671,56 @@ func inScope(f *ssa.Function, prefixes []string) bool {
 	}
 	return false
 }
+
+// checkClearBeforeCopy: a decoder whose receiver is a byte array and that copies a variable number of input
+// bytes into it clears the whole receiver first, on every path (a short input otherwise leaves the upper
+// bytes of a previously used object in place). One instance: goldilocks.Scalar.FromBytes.
+func checkClearBeforeCopy(c *Ctx, p *Program, rule, pkg, typ, name string) {
+	f := p.Func(pkg, typ, name)
+	what := "the receiver is cleared before input bytes are copied into it"
+	if f == nil {
+		c.undecided(rule, pkg+"."+typ+"."+name+": "+what, "anchor does not resolve", "")
+		return
+	}
+	recv := ssa.Value(f.Params[0])
+	hdrs := loopHeadersOf(f)
+	clearHdr := map[int]bool{}
+	for _, b := range f.Blocks {
+		for _, in := range b.Instrs {
+			st, ok := in.(*ssa.Store)
+			if !ok {
+				continue
+			}
+			ia, ok := st.Addr.(*ssa.IndexAddr)
+			if !ok || ia.X != recv {
+				continue
+			}
+			k, ok := st.Val.(*ssa.Const)
+			if !ok || k.Value == nil || k.Value.ExactString() != "0" {
+				continue
+			}
+			if _, isConst := ia.Index.(*ssa.Const); isConst {
+				continue
+			}
+			for _, h := range hdrs[b.Index] {
+				clearHdr[h] = true
+			}
+		}
+	}
+	isClear := func(in ssa.Instruction) bool {
+		if st, ok := in.(*ssa.Store); ok && st.Addr == recv {
+			return true
+		}
+		b := in.Block()
+		return clearHdr[b.Index] && in == b.Instrs[len(b.Instrs)-1]
+	}
+	isCopy := func(in ssa.Instruction) bool {
+		ci, ok := in.(ssa.CallInstruction)
+		if !ok {
+			return false
+		}
+		bi, ok := ci.Common().Value.(*ssa.Builtin)
+		return ok && bi.Name() == "copy" && len(ci.Common().Args) == 2 && recvField(recv, ci.Common().Args[0]) == "*"
+	}
+	c.orderRule(p, rule, what, f, "clearing of the whole receiver", isClear, "copy into the receiver", isCopy)
+}
